@@ -62,7 +62,7 @@ pub fn f6_life<const M: usize, const K: usize>() {
         };
         let nrec0 = NREC;
         // C08 on the hand-made state (sanity of the builder = RI clause 3/4)
-        assert!(bump.allocated_bytes_including_metadata() == ledger_live_bytes(), "[C08] builder: accounting != ledger");
+        vassert!(bump.allocated_bytes_including_metadata() == ledger_live_bytes(), "NEVER: [C08] builder: accounting != ledger");
 
         let choice: u8 = kani::any();
         kani::assume(choice <= 3);
@@ -70,28 +70,28 @@ pub fn f6_life<const M: usize, const K: usize>() {
             let cur_before = bump.current_chunk_footer.get();
             bump.reset();
             // ---- C03: reset frees all but the current chunk, exactly once, nothing foreign
-            assert!(!FOREIGN_FREE, "[C03] reset freed a block the arena never obtained (e.g. the static sentinel)");
-            assert!(!DOUBLE_FREE, "[C03] reset freed a block twice");
-            assert!(!LAYOUT_MISMATCH, "[C03] reset freed a block with a layout other than the one it was requested with");
+            vassert!(!FOREIGN_FREE, "NEVER: [C03] reset freed a block the arena never obtained (e.g. the static sentinel)");
+            vassert!(!DOUBLE_FREE, "NEVER: [C03] reset freed a block twice");
+            vassert!(!LAYOUT_MISMATCH, "NEVER: [C03] reset freed a block with a layout other than the one it was requested with");
             if K == 0 {
-                assert!(NFREE == 0 && NREQ == 0, "[C06] reset of a chunk-less arena touched the global allocator");
-                assert!(bump.current_chunk_footer.get() == empty_footer(), "[C06] reset of a chunk-less arena changed it");
-                assert!(bump.chunk_capacity() == 0 && bump.allocated_bytes() == 0, "[C06,C08] chunk-less arena reports memory after reset");
+                vassert!(NFREE == 0 && NREQ == 0, "NEVER: [C06] reset of a chunk-less arena touched the global allocator");
+                vassert!(bump.current_chunk_footer.get() == empty_footer(), "NEVER: [C06] reset of a chunk-less arena changed it");
+                vassert!(bump.chunk_capacity() == 0 && bump.allocated_bytes() == 0, "NEVER: [C06,C08] chunk-less arena reports memory after reset");
             } else {
-                assert!(NFREE == K - 1, "[C03] reset did not free exactly the chunks other than the current one");
-                assert!(ledger_live_count() == 1, "[C06] arena holds more than one block after reset");
-                assert!(LEDGER[K - 1].live, "[C03] reset freed the chunk it keeps");
-                assert!(bump.current_chunk_footer.get() == cur_before, "[C06] reset kept a different chunk than the current one");
+                vassert!(NFREE == K - 1, "NEVER: [C03] reset did not free exactly the chunks other than the current one");
+                vassert!(ledger_live_count() == 1, "NEVER: [C06] arena holds more than one block after reset");
+                vassert!(LEDGER[K - 1].live, "NEVER: [C03] reset freed the chunk it keeps");
+                vassert!(bump.current_chunk_footer.get() == cur_before, "NEVER: [C06] reset kept a different chunk than the current one");
                 // ---- C06
-                assert!(bump.chunk_capacity() == USABLE[K - 1], "[C06] full usable capacity not available after reset");
+                vassert!(bump.chunk_capacity() == USABLE[K - 1], "NEVER: [C06] full usable capacity not available after reset");
                 // ---- C08
-                assert!(bump.allocated_bytes_including_metadata() == ledger_live_bytes(), "[C08] including_metadata != bytes held after reset");
-                assert!(bump.allocated_bytes() == ledger_live_bytes() - FOOTER_SIZE, "[C08] allocated_bytes != bytes held minus per-chunk overhead after reset");
+                vassert!(bump.allocated_bytes_including_metadata() == ledger_live_bytes(), "NEVER: [C08] including_metadata != bytes held after reset");
+                vassert!(bump.allocated_bytes() == ledger_live_bytes() - FOOTER_SIZE, "NEVER: [C08] allocated_bytes != bytes held minus per-chunk overhead after reset");
             }
-            assert!(NREQ == 0, "[C06] reset asked the global allocator for memory");
-            assert!(bump.allocation_limit() == limit, "[C06] reset changed the allocation limit");
-            assert!(bump.min_align() == M, "[C06] reset changed the minimum alignment");
-            assert!(empty_is_pristine(), "[C20] shared static sentinel modified");
+            vassert!(NREQ == 0, "NEVER: [C06] reset asked the global allocator for memory");
+            vassert!(bump.allocation_limit() == limit, "NEVER: [C06] reset changed the allocation limit");
+            vassert!(bump.min_align() == M, "NEVER: [C06] reset changed the minimum alignment");
+            vassert!(empty_is_pristine(), "NEVER: [C20] shared static sentinel modified");
             {
                 let mut n = 0usize;
                 let mut total = 0usize;
@@ -99,15 +99,15 @@ pub fn f6_life<const M: usize, const K: usize>() {
                     n += 1;
                     total += s.len();
                 }
-                assert!(n == if K == 0 { 0 } else { 1 }, "[C06,C10] chunk iteration after reset does not show exactly the kept chunk");
-                assert!(total == 0, "[C06] chunk iteration shows allocated bytes after reset");
+                vassert!(n == if K == 0 { 0 } else { 1 }, "NEVER: [C06,C10] chunk iteration after reset does not show exactly the kept chunk");
+                vassert!(total == 0, "NEVER: [C06] chunk iteration shows allocated bytes after reset");
             }
             if choice == 2 {
                 let nfree = NFREE;
                 bump.reset();
-                assert!(NFREE == nfree && NREQ == 0, "[C06] second reset touched the global allocator");
-                assert!(bump.chunk_capacity() == if K == 0 { 0 } else { USABLE[K - 1] }, "[C06] second reset changed the capacity");
-                assert!(K == 0 || bump.allocated_bytes() == ledger_live_bytes() - FOOTER_SIZE, "[C08] accounting drifts on repeated reset");
+                vassert!(NFREE == nfree && NREQ == 0, "NEVER: [C06] second reset touched the global allocator");
+                vassert!(bump.chunk_capacity() == if K == 0 { 0 } else { USABLE[K - 1] }, "NEVER: [C06] second reset changed the capacity");
+                vassert!(K == 0 || bump.allocated_bytes() == ledger_live_bytes() - FOOTER_SIZE, "NEVER: [C08] accounting drifts on repeated reset");
             }
             if choice == 3 && K > 0 {
                 // the full usable capacity can be handed out again without the global allocator
@@ -119,8 +119,8 @@ pub fn f6_life<const M: usize, const K: usize>() {
                 FORBID_ALLOC = true;
                 let r = bump.try_alloc_layout(Layout::from_size_align(size, align).unwrap());
                 FORBID_ALLOC = false;
-                assert!(r.is_ok(), "[C06,C18] request within the recycled capacity refused");
-                assert!(NREQ == 0, "[C06] request within the recycled capacity went to the global allocator");
+                vassert!(r.is_ok(), "NEVER: [C06,C18] request within the recycled capacity refused");
+                vassert!(NREQ == 0, "NEVER: [C06] request within the recycled capacity went to the global allocator");
                 kani::cover!(size == cap, "REACH: whole capacity handed out again");
             }
         }
@@ -128,14 +128,14 @@ pub fn f6_life<const M: usize, const K: usize>() {
         let nfree_before_drop = NFREE;
         drop(bump);
         // ---- C03: drop gives everything back exactly once
-        assert!(!FOREIGN_FREE, "[C03] drop freed a block the arena never obtained (e.g. the static sentinel)");
-        assert!(!DOUBLE_FREE, "[C03] a block was freed twice");
-        assert!(!LAYOUT_MISMATCH, "[C03] a block was freed with a layout other than the one it was requested with");
-        assert!(ledger_live_count() == 0, "[C03] arena dropped but still holds memory (leak)");
-        assert!(NFREE == nfree_before_drop + live_before_drop, "[C03] number of frees != number of blocks held");
-        assert!(NFREE == nrec0, "[C03] blocks obtained != blocks returned over the arena's life");
-        assert!(NREQ == 0, "[C03] drop/reset asked the global allocator for memory");
-        assert!(empty_is_pristine(), "[C20] shared static sentinel modified");
+        vassert!(!FOREIGN_FREE, "NEVER: [C03] drop freed a block the arena never obtained (e.g. the static sentinel)");
+        vassert!(!DOUBLE_FREE, "NEVER: [C03] a block was freed twice");
+        vassert!(!LAYOUT_MISMATCH, "NEVER: [C03] a block was freed with a layout other than the one it was requested with");
+        vassert!(ledger_live_count() == 0, "NEVER: [C03] arena dropped but still holds memory (leak)");
+        vassert!(NFREE == nfree_before_drop + live_before_drop, "NEVER: [C03] number of frees != number of blocks held");
+        vassert!(NFREE == nrec0, "NEVER: [C03] blocks obtained != blocks returned over the arena's life");
+        vassert!(NREQ == 0, "NEVER: [C03] drop/reset asked the global allocator for memory");
+        vassert!(empty_is_pristine(), "NEVER: [C20] shared static sentinel modified");
         kani::cover!(choice == 0, "REACH: drop only");
         kani::cover!(choice == 1, "REACH: reset, drop");
         kani::cover!(choice == 2, "REACH: reset, reset, drop");
